@@ -19,11 +19,11 @@ type seedDoc struct {
 var editSeeds = []seedDoc{
 	{"mixed-object", `{"a":1,"b":"x","c":[1,2,3],"d":{"e":true,"f":null}}`, false},
 	{"mixed-array", `[1,"a",[2,3],{"x":1},true,null]`, false},
-	{"nested-containers", `{"k":[{"a":1.5,"b":"s"},[],{}],"u":18446744073709551615,"s":"é"}`, false},
+	{"nested-containers", `{"k":[{"a":1.5,"b":"s"},[],{}],"u":18446744073709551615,"s":"\u00e9"}`, false},
 	{"deep-arrays", `[[[1,2],[3]],[[4]]]`, false},
 	{"dup-keys", `{"a":"first","a":"dup","":0}`, false},
 	{"ndjson", "{\"a\":1}\n[true,false]\n{\"b\":{\"c\":\"d\"}}", true},
-	{"scalars", `[-1,2.5e10,"str",false]`, false},
+	{"scalars", `[-1,2.5e10,"str",false,123456789012345678901234567890,18446744073709551615]`, false},
 	{"chain", `{"only":{"deep":{"deeper":[null,{"x":"y"}]}}}`, false},
 }
 
